@@ -15,7 +15,8 @@ MARK_FUNCS = ["janet_mark_string", "janet_mark_buffer", "janet_mark_abstract", "
               "janet_mark_funcdef", "janet_mark_function", "janet_mark_fiber"]
 CALLBACKS = [("src/core/ev.c", "janet_stream_mark"), ("src/core/ev.c", "janet_ev_mark"), ("src/core/ev.c", "janet_chanat_mark_fq"),
              ("src/core/ev.c", "janet_chanat_mark"), ("src/core/parse.c", "parsermark"), ("src/core/peg.c", "peg_mark"),
-             ("src/core/os.c", "janet_proc_mark")]
+             ("src/core/os.c", "janet_proc_mark"), ("src/core/filewatch.c", "janet_filewatch_mark"),
+             ("src/core/ffi.c", "signature_mark"), ("src/core/ffi.c", "struct_mark")]
 EV_CALLBACKS = [("src/core/ev.c", "ev_callback_read"), ("src/core/ev.c", "ev_callback_write")]
 
 
